@@ -564,6 +564,8 @@ def run(ctx, rep):
             events.append((t, "data", ("RPYC", "NOSUCH", ()), (H3, 1)))
             events.append((t, "data", ("RPYC", "QUERY", ()), (H3, 1)))
             events.append((t, "data", ("RPYC", "REGISTER", (5, 6)), (H3, 1)))
+            # a list of names that is malformed only at its end: nothing of it may be registered (the request is not acknowledged)
+            events.append((t, "data", ("RPYC", "REGISTER", (("ZZZ_HALF", 7), 6)), (H3, 1)))
         state = _init_fields(ctx, rs)
         state.update({"services": {}, "pruning_timeout": TMO, "active": True})
         pos = [0]
